@@ -202,8 +202,8 @@ type targ struct {
 }
 
 var optNames = []string{"columns", "entries_per_node", "node_cache_entries", "readonly", "s3_bucket", "s3_endpoint", "s3_prefix", "frobnicate"}
-var goodInts = []string{"10", "0", "4096", "0x10", "-3", "2"}
-var badInts = []string{"abc", "", "99999999999", "zz", "1e3", "1.5", "ten"}
+var goodInts = []string{"10", "0", "4096", "0x10", "2"}
+var badInts = []string{"abc", "", "99999999999", "zz", "1e3", "1.5", "ten", "-3", "-1", "-4096"} // (negative: out of range)
 
 func (g *gen) genArgs(stats map[string]int, simple bool) ([]targ, []ctok) {
 	var args []targ
@@ -241,6 +241,11 @@ func (g *gen) genArgs(stats map[string]int, simple bool) ([]targ, []ctok) {
 			}
 		case 3:
 			a.text, a.val = "readonly", "none"
+			if !simple && g.x().Intn(4) == 0 {
+				// readonly is a flag: a value (readonly=no would have meant read-only) is malformed
+				a.text, a.val = "readonly="+[]string{"no", "yes", "0", "1", "true", "'on'"}[g.x().Intn(6)], "text"
+				stats["c20_readonly_with_value"]++
+			}
 		case 7:
 			a.text, a.val = "frobnicate=1", "text"
 			stats["c20_unknown_option"]++
